@@ -35,3 +35,10 @@ func (n *node[T]) verifDump(sb *strings.Builder) {
 	}
 	sb.WriteByte(')')
 }
+
+// VerifMethodEntity 返回 index 对应的请求方法列表及 Allow 报头的内容，仅用于验证工具。
+func VerifMethodEntity(index int) ([]string, string) {
+	buildMethodIndexes(index)
+	e := getMethodIndexEntity(index)
+	return e.methods, e.options
+}
